@@ -211,6 +211,16 @@ def statsTypes : List (Nat × Layout × Layout × Bool) := [
 /-- `enum ofp_queue_properties`: OFPQT_NONE 0, OFPQT_MIN_RATE 1 -/
 def queuePropTypes : List (Nat × Layout) := [(0, ofp_queue_prop_header), (1, ofp_queue_prop_min_rate)]
 
+/-- `enum ofp_type` by name: OFPT_x (code) ↦ the library class named after it (`ofp_x`; OFPT_ERROR ↦ `ofp_error`,
+    OFPT_VENDOR ↦ `ofp_vendor_generic`).  Distinguishes the messages that share a structure (the five header-only ones,
+    echo request/reply, get-config-reply/set-config, stats request/reply). -/
+def messageClass : List (Nat × String) := [
+  (0, "ofp_hello"), (1, "ofp_error"), (2, "ofp_echo_request"), (3, "ofp_echo_reply"), (4, "ofp_vendor_generic"),
+  (5, "ofp_features_request"), (6, "ofp_features_reply"), (7, "ofp_get_config_request"), (8, "ofp_get_config_reply"),
+  (9, "ofp_set_config"), (10, "ofp_packet_in"), (11, "ofp_flow_removed"), (12, "ofp_port_status"), (13, "ofp_packet_out"),
+  (14, "ofp_flow_mod"), (15, "ofp_port_mod"), (16, "ofp_stats_request"), (17, "ofp_stats_reply"), (18, "ofp_barrier_request"),
+  (19, "ofp_barrier_reply"), (20, "ofp_queue_get_config_request"), (21, "ofp_queue_get_config_reply")]
+
 /-- sizes asserted by `OFP_ASSERT(sizeof(...) == n)` in `openflow.h` (fixed parts) -/
 def sizes : List (Layout × Nat) := [
   (⟨ofp_header, .none⟩, 8), (⟨ofp_phy_port, .none⟩, 48), (⟨ofp_match, .none⟩, 40), (ofp_switch_features, 32),
